@@ -50,6 +50,13 @@ Proof.
   intros line opps H. split; [exact (proj1 (unicode_cuts_found line opps H))|exact (unicode_cuts_top line opps H)].
 Qed.
 
+(* tie to the source text: the soft hyphen of the opportunity filter is the literal SHY of
+   /repo/src/word_separators.rs on this run *)
+From TW Require Import SrcConsts SrcConstsFacts.
+Theorem C11_source_constants : src_shy = SHY.
+Proof. exact src_shy_ok. Qed.
+Print Assumptions C11_source_constants.
+
 Print Assumptions C11_ascii_lossless.
 Print Assumptions C11_unicode_lossless.
 Print Assumptions C11_ascii_boundaries.
